@@ -8,7 +8,7 @@ use vbase::gens::{self, DocParams};
 use vbase::refjson::{self, is_ws, lex_string, scan, show_bytes, skip_ws, trunc, NoSink, Span};
 use vbase::{ensure, fail};
 
-pub const RULE: &str = "cases are byte strings whose first value is (usually) an array or object: generated containers of size 0..=40 with nesting, escaped keys, whitespace variation and trailing bytes after the container, shallow containers with 64..1030 tiny members, bracket-burst containers whose elements close one or more 64-byte blocks after they opened, every truncation / substitution / deletion of a set of them, random mutations, UTF-8 damage. For each input both iterator kinds run over &[u8], &str, &String, &Bytes, &FastStr (checked), the *_unchecked forms and LazyValue::into_array_iter/into_object_iter (well-formed input only). Iterator adaptors (nth, skip, step_by, count, last, fold) on a fresh iterator must agree with the same adaptor applied to the items collected by repeated next(), and leave the iterator latched. Expected (reference scan): one item per leading member that is a well-formed value behind a correct separator (and key and colon) with raw text == exact source span and key == decoded name; then None if the container closed correctly, otherwise exactly one Err; afterwards None on three further polls. For non-UTF-8 input the Ok items must be a prefix of the reference items followed by exactly one Err (the iterators validate UTF-8 up front). Non-trivial = >= 2 members (well-formed) or >= 1 leading member before the violation (malformed); distinct by input.";
+pub const RULE: &str = "cases are byte strings whose first value is (usually) an array or object: generated containers of size 0..=40 with nesting, escaped keys, whitespace variation and trailing bytes after the container, shallow containers with 64..1030 tiny members, every byte value at every position of an escape (letter, each hex digit, low half of a surrogate pair) in element / nested / member-value / member-name position, bracket-burst containers whose elements close one or more 64-byte blocks after they opened, every truncation / substitution / deletion of a set of them, random mutations, UTF-8 damage. For each input both iterator kinds run over &[u8], &str, &String, &Bytes, &FastStr (checked), the *_unchecked forms and LazyValue::into_array_iter/into_object_iter (well-formed input only). Iterator adaptors (nth, skip, step_by, count, last, fold) on a fresh iterator must agree with the same adaptor applied to the items collected by repeated next(), and leave the iterator latched. Expected (reference scan): one item per leading member that is a well-formed value behind a correct separator (and key and colon) with raw text == exact source span and key == decoded name; then None if the container closed correctly, otherwise exactly one Err; afterwards None on three further polls. For non-UTF-8 input the Ok items must be a prefix of the reference items followed by exactly one Err (the iterators validate UTF-8 up front). Non-trivial = >= 2 members (well-formed) or >= 1 leading member before the violation (malformed); distinct by input.";
 pub const ASSUMPTIONS: &[&str] = &["refjson scanner", "members whose only defect is an unpaired surrogate escape may be yielded or rejected (the statement does not fix the tier for values)"];
 
 #[derive(Debug, Clone, PartialEq)]
@@ -306,7 +306,7 @@ pub fn oracle(b: &[u8], obs: &mut Obs) -> Result<(), Fail> {
 }
 
 pub fn subs() -> Vec<Sub<'static>> {
-    ["containers", "mutated", "sweep", "sizes", "many-small", "brackets"].iter().map(|n| Sub { name: n, oracle: &oracle, minimise_bytes: true }).collect()
+    ["containers", "mutated", "sweep", "sizes", "many-small", "brackets", "escape-bytes"].iter().map(|n| Sub { name: n, oracle: &oracle, minimise_bytes: true }).collect()
 }
 
 fn sub(name: &str) -> Sub<'static> {
@@ -368,6 +368,48 @@ pub fn run(ctx: &Ctx) {
                     o.push_str(&format!("{ws}}}{ws}"));
                     if !(emit(a.as_bytes()) && emit(o.as_bytes())) {
                         return;
+                    }
+                }
+            }
+        }
+    });
+    // every byte value at every position of an escape (the letter after the backslash, each of the four hex
+    // digits of a \u escape, each hex digit of the low half of a surrogate pair), the string being an element, an
+    // element of a nested array, a member value, a member value two levels down and a member name; short and
+    // longer than one 32/64-byte block
+    ctx.sweep(&sub("escape-bytes"), true, &|shard, n, emit| {
+        let mut k = 0usize;
+        for b in 0..=255u8 {
+            for (esc, positions) in [(&b"\\u00e9"[..], 1..6usize), (&b"\\ud83d\\ude00"[..], 7..12usize), (&b"\\n"[..], 1..2usize)] {
+                for pos in positions {
+                    k += 1;
+                    if k % n != shard {
+                        continue;
+                    }
+                    let mut e = esc.to_vec();
+                    if e[pos] == b {
+                        continue;
+                    }
+                    e[pos] = b;
+                    for pad in [0usize, 29, 61] {
+                        let mut lit = vec![b'"'];
+                        lit.extend(std::iter::repeat(b'a').take(pad));
+                        lit.extend_from_slice(&e);
+                        lit.extend_from_slice(b"z\"");
+                        let l = &lit[..];
+                        let docs: [Vec<u8>; 6] = [
+                            [b"[\"ok\", ", l, b", 1]"].concat(),
+                            [b"[\"ok\",[[", l, b"]],1]"].concat(),
+                            [b"{\"a\":true,\"b\":", l, b",\"c\":1}"].concat(),
+                            [b"{\"a\":true,\"b\":{\"x\":[0,", l, b"]},\"c\":1}"].concat(),
+                            [b"{\"a\":true,", l, b":2,\"c\":1}"].concat(),
+                            [b"[", l, b"]"].concat(),
+                        ];
+                        for d in &docs {
+                            if !emit(d) {
+                                return;
+                            }
+                        }
                     }
                 }
             }
